@@ -139,6 +139,8 @@ func VerifResize() {
 	verifAssert(f2.getMetaPage().maxSize.Get() == uint64(newMax)*verifPageSize, "the active header carries the new limit")
 	if newMax > oldMax {
 		verifAssert(s.availNow() == availBefore+(newMax-oldMax), "after growing exactly the additional pages become allocatable")
+		szAfter, _ := disk2.Size()
+		verifAssert(szAfter >= szBefore, "raising the limit never cuts the file")
 	}
 	if newMax == 0 {
 		verifAssert(f2.allocator.maxSize == 0, "unbounded")
@@ -270,9 +272,14 @@ func VerifResizeSpecial() {
 	before := snapOf(s.f)
 	oldExtent := maxU(uint(before.dataEnd), uint(before.metaEnd))
 	availBefore := s.availNow()
+	szBefore, _ := s.disk.Size()
 	verifAssert(s.f.Close() == nil, "File.Close succeeds")
 
-	newMax := []uint{96, 160}[verifChoose(2)]
+	newMaxs := []uint{96, 160}
+	if scen == 1 {
+		newMaxs = []uint{96, 160, 65} // 65: a larger limit that still lies inside the overflow pages in use
+	}
+	newMax := newMaxs[verifChoose(len(newMaxs))]
 	verifLogU64("scenario", uint64(scen))
 	verifLogU64("new max pages", uint64(newMax))
 	disk2 := memFileFrom(s.disk.image(), capacity)
@@ -291,6 +298,8 @@ func VerifResizeSpecial() {
 	verifAssert(f2.getMetaPage().maxSize.Get() == uint64(newMax)*verifPageSize, "the active header carries the new limit")
 	if scen == 1 {
 		verifAssert(s.availNow() == availBefore+(newMax-oldMax), "after growing exactly the additional pages become allocatable")
+		szAfter, _ := disk2.Size()
+		verifAssert(szAfter >= szBefore, "raising the limit never cuts the file")
 	}
 
 	// allocate and write pages, overwrite others: nothing of the earlier state may change
@@ -298,8 +307,12 @@ func VerifResizeSpecial() {
 		tx, berr := f2.Begin()
 		verifAssert(berr == nil, "Begin succeeds")
 		w := s.m.clone()
-		ps, aerr := tx.AllocN(8)
-		verifAssert(aerr == nil && len(ps) == 8, "AllocN(8) succeeds on the resized file")
+		nAlloc := 8
+		if av := int(s.availNow()); av < nAlloc {
+			nAlloc = av
+		}
+		ps, aerr := tx.AllocN(nAlloc)
+		verifAssert(aerr == nil && len(ps) == nAlloc, "AllocN succeeds on the resized file for pages counted as allocatable")
 		for _, p := range ps {
 			if verifKnown("D22", scen == 1 && uint(p.ID()) >= oldMax && p.ID() < before.metaEnd) {
 				verifLog("a page of the overflow area (beyond the old maximum size, owned by the meta area) is handed out as a data page after the limit was raised")
